@@ -1,5 +1,6 @@
 from __future__ import print_function
 
+import re
 import sys
 from bisect import insort
 from ast import iter_fields, Store, Load, NodeVisitor, parse, Tuple, List, AST
@@ -341,6 +342,14 @@ def marked(name):
     return SOURCE_MARK in name
 
 
+def split_lines(source):
+    # type: (str) -> list[str]
+    """Lines as the tokenizer and ast number them: unlike str.splitlines
+    form feed and the other unicode separators do not end a line"""
+    lines = re.split('\r\n|\r|\n', source)
+    return lines[:-1] if len(lines) > 1 and not lines[-1] else lines
+
+
 class Source(object):
     def __init__(self, source, filename=None, position=None):
         # type: (str, str | None, tuple[int, int] | None) -> None
@@ -348,7 +357,7 @@ class Source(object):
         self.filename = filename or '<string>'
         if position:
             ln, col = position
-            lines = source.splitlines() or ['']
+            lines = split_lines(source)
             if ln > len(lines):
                 lines.append('')
             line = lines[ln-1]
@@ -370,7 +379,7 @@ class Source(object):
     @cached_property
     def lines(self):
         # type: () -> list[str]
-        return self.source.splitlines() or ['']
+        return split_lines(self.source)
 
 
 def dump_flows(scope, fd=None):
